@@ -568,10 +568,10 @@ func runL5(args []string) {
 		}
 		process(h)
 	} else {
-		for i := 0; i < *n; i++ {
+		for i := 0; i < *n && hangCount < maxHangs; i++ {
 			process(genL5(r.Fork()))
 		}
-		for i := 0; i < *conc; i++ {
+		for i := 0; i < *conc && hangCount < maxHangs; i++ {
 			cr := r.Fork()
 			threads := 2 + cr.Intn(5)
 			per := 5 + cr.Intn(20)
